@@ -7,6 +7,7 @@ from typing import Any, ClassVar
 
 from tree_sitter import Node
 
+from nix_manipulator.expressions.points import point_row
 from nix_manipulator.expressions.binding import Binding
 from nix_manipulator.expressions.binding_parser import parse_binding_sequence
 from nix_manipulator.expressions.comment import Comment
@@ -100,7 +101,7 @@ class LetExpression(TypedExpression):
                     < binding_set.start_byte
                 ):
                     continue
-                if comment_node.start_point.row != let_symbol.end_point.row:
+                if point_row(comment_node.start_point) != point_row(let_symbol.end_point):
                     continue
                 after_let_comment_expr = tree_sitter_node_to_expression(comment_node)
                 assert isinstance(after_let_comment_expr, Comment)
